@@ -9,7 +9,9 @@ predicates TRANSLATED from the Go source (`PortMapping.IsValid`, `CanBeAccessedB
 
 Quantifiers: every world (any finite set of mappings in any state, any clock), every connection identity,
 every request (any strings as mapping id / secret / resume token, malformed payloads), every tunnel state at
-arrival (no bridge, bridge waiting, bridge served, route to this or another node).  No bounds.
+arrival (no bridge, bridge waiting, bridge served, route to this or another node) and — `C04_main_dyn`,
+`attach_entitled_dyn` — every bridge or route, of any mapping, on this or another node, that appears while a
+request that found nothing at arrival is polling.  No bounds.
 
 Hypothesis `identWF` (decidable): a connection carries a client id only together with the authenticated
 flag.  It is what the auth handlers guarantee (property C03; tied below by the skeletons of
@@ -30,6 +32,67 @@ theorem C04_main (w : World) (id : ConnIdent) (req : Req) (ts : TunnelState) (hw
   · rw [hr]; simp [refuse, Outcome.obs]
   · obtain ⟨hc, ha, hm⟩ := passed_of_not_refused hr
     rw [entitled_of_passed hwf hc ha hm]; rfl
+
+/-- **C04, tunnel state changing during the request.**  `late` is whatever bridge or waiting route appears
+(for any mapping, on this or another node) while a request that found nothing at arrival is polling.  The
+acknowledgement obeys `holds` for the state at arrival, and the connection is attached to the tunnel that
+appeared — or receives bytes from it — only if it is entitled to THAT tunnel's mapping. -/
+theorem C04_main_dyn (w : World) (id : ConnIdent) (req : Req) (ts : TunnelState) (late : Late)
+    (hwf : identWF id = true) :
+    holdsDyn w id req ts late ((openTunnelDyn w id req ts late).obsDyn ts late) = true := by
+  unfold holdsDyn holds
+  by_cases hr : openTunnelDyn w id req ts late = refuse
+  · rw [hr]; simp [refuse, Outcome.obsDyn]
+  · obtain ⟨hc, ha, hm⟩ := passed_of_not_refused_dyn hr
+    have he := entitled_of_passed hwf hc ha hm
+    rw [he]
+    simp only [Bool.true_or, Bool.true_and]
+    -- where is it attached?
+    cases ts with
+    | bridge m sv => simp [attachedTs, he]
+    | remote m n => simp [attachedTs, he]
+    | none =>
+      cases late with
+      | none => simp [attachedTs, he]
+      | route m n b =>
+        rcases dyn_none_cases w id req (.route m n b) with h | h | h
+        · exact absurd h hr
+        · rw [h]; simp [attachedTs, Outcome.obsDyn, he]
+        · rw [h]
+          by_cases hat : (handleTargetBridge w req (.route m n b)).attach = .none
+          · have hd : ((handleTargetBridge w req (.route m n b)).obsDyn .none (.route m n b)).data = false := by
+              simp [Outcome.obsDyn, hat]
+            simp [Outcome.obsDyn, hat] at hd ⊢
+          · have hmm := late_attach_mapping hat
+            have he' : entitledB w id req (.remote m n) = true :=
+              entitled_of_passed hwf hc ha (by simpa [tunnelMappingID] using hmm)
+            have hns : (handleTargetBridge w req (.route m n b)).attach ≠ .source := by
+              unfold handleTargetBridge processCrossNodeForwardLate handleLocalBridgeWait
+              simp only [hmm, bne_self_eq_false, Bool.false_eq_true, if_false]
+              split
+              · split <;> simp
+              · simp
+            simp [attachedTs, Outcome.obsDyn, hns, he']
+
+/-- Attachment in a changing tunnel state: whatever the connection is attached to — the tunnel found at arrival,
+the bridge it creates, or the tunnel that appears while it polls — it is authenticated and entitled to that
+tunnel's mapping. -/
+theorem attach_entitled_dyn (w : World) (id : ConnIdent) (req : Req) (ts : TunnelState) (late : Late)
+    (hwf : identWF id = true) (h : (openTunnelDyn w id req ts late).attach ≠ .none) :
+    id.authenticated = true ∧
+    entitledB w id req (attachedTs ts late (openTunnelDyn w id req ts late).attach) = true := by
+  have hm := C04_main_dyn w id req ts late hwf
+  unfold holdsDyn at hm
+  simp only [Bool.and_eq_true, Bool.or_eq_true] at hm
+  have he : entitledB w id req (attachedTs ts late (openTunnelDyn w id req ts late).attach) = true := by
+    rcases hm.2 with hn | he
+    · simp [Outcome.obsDyn] at hn
+      exact absurd hn.1 h
+    · simpa [Outcome.obsDyn] using he
+  refine ⟨?_, he⟩
+  unfold entitledB at he
+  simp only [Bool.and_eq_true] at he
+  exact he.1.1.2
 
 /-- Attachment (source, target or forwarded to another node) only for an authenticated, entitled connection. -/
 theorem attach_entitled (w : World) (id : ConnIdent) (req : Req) (ts : TunnelState) (hwf : identWF id = true)
@@ -146,11 +209,11 @@ theorem legit_target_served (w : World) (id : ConnIdent) (m : PortMapping) (tid 
     simp [hid, hne, hs, hf, hv, validateWithSecretKey]
   have hb : openTunnel w id ⟨true, m.ID, tid, m.SecretKey, ""⟩ (.bridge m.ID sv)
       = handleExistingBridge w ⟨true, m.ID, tid, m.SecretKey, ""⟩ := by
-    simp [openTunnel, findControlConnection, hc, ha]
+    simp [openTunnel, openTunnelDyn, findControlConnection, hc, ha]
   refine ⟨?_, ?_, ?_⟩
   · rw [hb]; rfl
   · rw [hb]; exact handleExistingBridge_attach w _
-  · simp [openTunnel, findControlConnection, hc, ha, processCrossNodeForward, hn]
+  · simp [openTunnel, openTunnelDyn, findControlConnection, hc, ha, processCrossNodeForward, hn]
 
 /-! ## T2: the order of effectful steps in the source is the one the model assumes -/
 
@@ -230,5 +293,25 @@ example : entitledB wWitness targetClient secretReq (.bridge "M" false) = true :
 example : openTunnel wWitness targetClient midReq (.bridge "M" false) = refuse := by decide
 example : openTunnel wWitness nobody emptyReq (.bridge "M" false) = refuse := by decide
 example : entitledB wWitness targetClient midReq (.bridge "M" false) = false := by decide
+
+/-! ### tunnel state changing during the request -/
+
+def wTwo : World :=
+  { mappings := [⟨"M", 11, 22, "s3cretM", "active", false, none⟩, ⟨"F", 33, 34, "s3cretF", "active", false, none⟩],
+    now := 1000, nodeID := "node-A" }
+def targetOfF : ConnIdent := ⟨true, 34, true⟩
+def secretReqF : Req := ⟨true, "F", "verif-tunnel-01", "s3cretF", ""⟩
+
+-- the rightful target, polling, joins the bridge of ITS mapping when the listen client opens it
+example : openTunnelDyn wTwo targetClient secretReq .none (.route "M" "node-A" true) = ⟨.ok, .target, .switch⟩ := by decide
+-- and is piped to the other node when the tunnel is opened there
+example : (openTunnelDyn wTwo targetClient secretReq .none (.route "M" "node-B" false)).attach = .forward "node-B" := by decide
+-- F's target, acknowledged for F at arrival, is NOT attached to M's bridge that appears under the same tunnel id
+example : openTunnelDyn wTwo targetOfF secretReqF .none (.route "M" "node-A" true) = ⟨.ok, .none, .err⟩ := by decide
+example : openTunnelDyn wTwo targetOfF secretReqF .none (.route "M" "node-B" false) = ⟨.ok, .none, .err⟩ := by decide
+-- what `holdsDyn` rejects: F's target as target of M's late bridge, reading M's bytes (the observation made on a
+-- tree where `processCrossNodeForward` takes the local-bridge shortcut before comparing the mappings)
+example : holdsDyn wTwo targetOfF secretReqF .none (.route "M" "node-A" true) ⟨.ok, .target, true⟩ = false := by decide
+example : holdsDyn wTwo targetOfF secretReqF .none (.route "M" "node-A" true) ⟨.ok, .none, false⟩ = true := by decide
 
 end Tunnox.C04
